@@ -27,6 +27,7 @@ type SpecEnv struct {
 	Lets  map[string]Expr
 	Frame *Frame
 	Prev  *SpecEnv // loop step clauses: the environment at the head of the iteration
+	Entry *SpecEnv // loop clauses: the environment in which the loop was entered
 	depth int
 }
 
@@ -112,6 +113,11 @@ func (env *SpecEnv) eval(e Expr) SV {
 		sub := *env
 		sub.Cur = env.Old
 		return sub.eval(e.X)
+	case EEntry:
+		if env.Entry == nil {
+			specFail("entry() is only meaningful in a loop invariant or step clause")
+		}
+		return env.Entry.eval(e.X)
 	case EPrev:
 		if env.Prev == nil {
 			specFail("prev() is only meaningful in a loop step clause")
@@ -1020,6 +1026,14 @@ func (env *SpecEnv) resolveType(s string) types.Type {
 	}
 	if s == "interface{}" {
 		return types.NewInterfaceType(nil, nil)
+	}
+	switch {
+	case strings.HasPrefix(s, "chan<- "):
+		return types.NewChan(types.SendOnly, env.resolveType(s[len("chan<- "):]))
+	case strings.HasPrefix(s, "<-chan "):
+		return types.NewChan(types.RecvOnly, env.resolveType(s[len("<-chan "):]))
+	case strings.HasPrefix(s, "chan "):
+		return types.NewChan(types.SendRecv, env.resolveType(s[len("chan "):]))
 	}
 	if obj := types.Universe.Lookup(s); obj != nil {
 		if tn, ok := obj.(*types.TypeName); ok {
